@@ -15,6 +15,9 @@ RULE = ("Dates drawn evenly over 2000-01-01 .. 2020-12-31 (to 2017-02 with the r
         "the 16 bodies of de403_2000-2020.bsp (+ the built-in EME2000 frame) is enumerated at every "
         "drawn date, with and without PCK files.")
 ASSUMPTIONS = [
+    "tabulate facet: real IERS tables; the samples of a range stay >= 230 s away from 0h UTC (leap-second windows "
+    "and which day's UT1-UTC serves next to midnight are C03 / C04 matters), the ranges themselves straddle the five "
+    "leap-second midnights of 2006-2017, ordinary midnights, or none",
     "history facet: what a caller does to an object it was handed (frame / form / values / date changed in "
     "place) must not reach any later answer; later answers are compared bit for bit with the first ones",
     "oracle: the type-2 segments of tests/data/jpl/de403_2000-2020.bsp evaluated with jplephem and "
@@ -456,6 +459,144 @@ def check_history(case):
                 cls=sorted(cls) + [name if series else "kernel-body", f"eop:{eop_of(case['shard'])}"], ratio=worst)
 
 
+# ----------------------------------------------------------------- tabulations (iter / ephem)
+
+TAB_LABELS = ["UTC", "UT1", "TAI", "TT", "TDB", "GPS"]
+TAB_MODES = ["iter", "iter-stop-delta", "dates", "dates-reversed", "ephem", "ephemeris", "backward", "backward-negstep",
+             "iter-exact-stop"]
+# 0h UTC of these days follows an inserted leap second (own table, 2000-2017 = span of the shipped EOP files)
+LEAP_MIDNIGHTS = [m for m, _ in od.LEAP if 53000 < m <= 57754]
+TAB_STEPS = [600, 900, 1800, 3600, 7200, 21600]
+
+
+def setup_tab(shard):
+    from .. import env
+
+    env.eop("real")
+    env.jpl(with_pck=shard % 2 == 0)
+    from beyond.env import jpl
+
+    jpl.create_frames()
+
+
+@st.composite
+def tab_case(draw, shard, tier):
+    from ..gen.draws import D
+
+    d = D(draw)
+    kind = ("leap", "leap", "midnight", "ordinary")[(d.int(0, 3) + shard) % 4]
+    n = d.int(3, 10)
+    step = TAB_STEPS[d.int(0, len(TAB_STEPS) - 1)]
+    if kind == "leap":
+        day = LEAP_MIDNIGHTS[(d.int(0, len(LEAP_MIDNIGHTS) - 1) + shard) % len(LEAP_MIDNIGHTS)]
+    else:
+        day = d.int(MJD_2000 + 30, MJD_REAL_END - 30)
+        while day in LEAP_MIDNIGHTS:
+            day += 1
+    if kind == "ordinary":
+        step = min(step, 3600)
+        start_ms = day * 86400000 + d.int(7200, 12000) * 1000 + d.int(0, 999)
+    else:
+        # midnight between samples j0 and j0 + 1, every sample >= 300 s (label reading) away from it
+        j0 = d.int(0, n - 2)
+        slack = step // 2 - 300
+        start_ms = day * 86400000 - (2 * j0 + 1) * step * 500 + d.int(-slack, slack) * 1000 + d.int(0, 999)
+    names = [frame_name(b) for b in sorted(kernel().parent)]
+    return dict(shard=shard, kind=kind, body=names[(d.int(0, len(names) - 1) + shard) % len(names)],
+                label=TAB_LABELS[(d.int(0, 5) + shard) % 6], mode=TAB_MODES[(d.int(0, 8) + shard // 2) % 9],
+                start_ms=start_ms, step=step, n=n, origin=d.int(-3, 3))
+
+
+def check_tabulate(case):
+    """Every state of a tabulation is the kernel's state at that state's own date."""
+    from beyond.dates import Date, timedelta
+    from beyond.env import jpl
+
+    from ..oracles import iers
+    from .. import env
+
+    K = kernel()
+    name, label, n, step = case["body"], case["label"], case["n"], case["step"]
+    idx = {frame_name(b): b for b in K.parent}[name]
+    parent = frame_name(K.parent[idx])
+    tab = iers.tables(env.repo())
+
+    def reading(k):
+        ms = case["start_ms"] + k * step * 1000
+        return ms // 86400000, (ms % 86400000) / 1000.0
+
+    def date_of(k):
+        m, sec = reading(k)
+        return Date(int(m), sec, scale=label)
+
+    def tdb_of(k):
+        m, sec = reading(k)
+        if label == "UTC":
+            return od.tdb_jd(m, sec, "UTC", od.tai_minus_utc(m))
+        if label == "UT1":
+            # UT1 reading -> UTC reading with the tabulated UT1-UTC of the day (samples stay >= 230 s from 0h)
+            tot = sec - tab.days[m]["ut1_utc"]
+            return od.tdb_jd(m, tot, "UTC", od.tai_minus_utc(m))
+        if label == "GPS":
+            return od.tdb_jd(m, sec + 19.0, "TAI", 0.0)
+        return od.tdb_jd(m, sec, label, 0.0)
+
+    order = list(range(n))
+    mode = case["mode"]
+    orb0 = jpl.get_orbit(name, date_of(case["origin"]))
+    dt_step = timedelta(seconds=step)
+    half = timedelta(seconds=step / 2.0)
+    if mode == "iter":
+        got = list(orb0.iter(start=date_of(0), stop=date_of(n - 1) + half, step=dt_step))
+    elif mode == "iter-exact-stop":
+        # documented: start / stop / step work as Date.range(start, stop, step, inclusive=True)
+        got = list(orb0.iter(start=date_of(0), stop=date_of(n - 1), step=dt_step))
+    elif mode == "iter-stop-delta":
+        got = list(orb0.iter(start=date_of(0), stop=timedelta(seconds=step * (n - 1) + step / 2.0), step=dt_step))
+    elif mode == "dates":
+        got = list(orb0.iter(dates=[date_of(k) for k in order]))
+    elif mode == "dates-reversed":
+        order = order[::-1]
+        got = list(orb0.iter(dates=[date_of(k) for k in order]))
+    elif mode == "ephem":
+        got = list(orb0.ephem(start=date_of(0), stop=date_of(n - 1) + half, step=dt_step))
+    elif mode == "ephemeris":
+        got = list(orb0.ephemeris(start=date_of(0), stop=date_of(n - 1) + half, step=dt_step))
+    elif mode == "backward":
+        order = order[::-1]
+        got = list(orb0.iter(start=date_of(n - 1), stop=date_of(0) - half, step=dt_step))
+    else:
+        order = order[::-1]
+        got = list(orb0.iter(start=date_of(n - 1), stop=date_of(0) - half, step=timedelta(seconds=-step)))
+
+    def fail(kind, msg):
+        raise Violation(kind, f"{name} tabulated by {mode} ({label} dates, {case['kind']} range): {msg}")
+
+    if len(got) != n:
+        fail("tab-count", f"{len(got)} states for {n} dates")
+    worst = 0.0
+    for pos, (k, orb) in enumerate(zip(order, got)):
+        want_date = date_of(k)
+        if abs((orb.date - want_date).total_seconds()) > 2e-6:
+            fail("tab-dates", f"state {pos} is dated {orb.date}, asked for {want_date}")
+        if orb.frame.name != parent or orb.form.name != "cartesian":
+            fail("tab-frame", f"state {pos} comes in {orb.frame.name}/{orb.form.name}")
+        vals = np.asarray(orb.base, float)
+        if not np.all(np.isfinite(vals)):
+            fail("non-finite", f"state {pos}: {vals.tolist()}")
+        ref = K.state(idx, K.parent[idx], *tdb_of(k))
+        speed = float(np.linalg.norm(ref[3:]))
+        dp = float(np.linalg.norm(vals[:3] - ref[:3]))
+        dv = float(np.linalg.norm(vals[3:] - ref[3:]))
+        tol_p = speed * TIMING + 1e-3 + 1e-14 * float(np.linalg.norm(ref[:3]))
+        tol_v = 2e-5 + 1e-13 * speed
+        worst = max(worst, dp / tol_p, dv / tol_v)
+        if dp > tol_p or dv > tol_v:
+            fail("tab-state", f"state {pos} of {n} (dated {orb.date}) is {dp:.6g} m, {dv:.3g} m/s from the kernel at its "
+                              f"own date = {dp / max(speed, 1e-9):.6f} s of motion (tol {tol_p:.3g} m)")
+    return dict(nt=True, cls=[f"range:{case['kind']}", f"label:{label}", f"mode:{mode}"], ratio=worst)
+
+
 LEVEL_TEXT = ("Property-based search over dates of 2000-2020: the analytical Sun and Moon against DE403 "
               "read directly with jplephem, their velocities against the derivative of their own "
               "positions; every ordered pair of kernel bodies (enumerated) against the chained segments, "
@@ -475,6 +616,9 @@ FACETS = [
     Facet("history", history_case, check_history, setup=setup_history,
           rule="at least two queries and one in-place change of a returned object in the history",
           quick=(8, 120), thorough=(16, 2000)),
+    Facet("tabulate", tab_case, check_tabulate, setup=setup_tab,
+          rule="every case: 3-10 states of one tabulation, each against the kernel at its own date",
+          quick=(8, 80), thorough=(16, 1500)),
     Facet("jpl_pairs", jpl_case, check_jpl_pairs, setup=setup_jpl,
           rule="every case = 272 ordered (from, to) pairs x {zero state, get_orbit} at one date",
           quick=(16, 5), thorough=(48, 60)),
